@@ -263,6 +263,9 @@ class VC:
 
     def _env(self, env, k=None):
         ns = types.SimpleNamespace(**{k_: v for k_, v in env.items() if not k_.startswith('__')})
+        for k_, v in env.items():
+            if k_.startswith('__tgt'):          # index of a cut for-loop whose target is a tuple: visible to invariants as e.tgt<ordinal>
+                setattr(ns, k_[2:], v)
         if k is not None and k in self._pre:
             ns.pre = self._pre[k]
         return ns
